@@ -100,7 +100,7 @@ def product_cases(draw, max_lines=12, max_pixels=6, max_images=3, levels=("1.1",
         if blank:
             im["blank_header"] = sorted(blank)
         if draw(st.integers(0, 3)) == 0:
-            im["cross_midnight"] = True  # line times run over midnight when the instant is late in the day
+            im["cross_midnight"] = draw(st.sampled_from([True, True, "overflow"]))  # line times run over midnight when the instant is late in the day
         if draw(st.integers(0, 4)) == 0:
             im["line_numbers"] = draw(st.sampled_from(["restart", "zeros"]))
         images.append(im)
